@@ -516,6 +516,7 @@ def projection_session(A, sid, p, pid):
     M, Mi = A["basis"]["M"], A["basis"]["Mi"]
     allterms = {(0,) * k: hermitian.h0_user(A), **A["terms"]}
     hermitian.EXACT_TINY = A.get("tiny_parameter") is not None
+    hermitian.JITTERED = False
     for n in ords:
         blk, _ = hermitian.assemble(op, n, sizes, p)
         outB.append({"Ht": blk, "U": blk, "Ud": blk})
